@@ -52,6 +52,57 @@ def extra_run(man, tier, seed):
         if parts[5] != parts[2]:
             failures.append({'site': site, 'case': line, 'impl': parts[5][:120], 'expected': 'sequence-format round trip gives the same queries',
                              'observed': 'seq', 'detail': ''})
+    # ---- types the generated runners do not reach (generic structs, nalgebra fields, kernels, processes, statistics built by
+    # observe): harness ops serde2.<T> (harness/src/manual_c18.rs)
+    T2 = ['MixtureGaussian', 'MvGaussian', 'InvWishart', 'NormalInvWishart', 'Crp', 'Partition', 'Empirical', 'KsTwoAsymptotic',
+          'GaussianSuffStat', 'BernoulliSuffStat', 'CategoricalSuffStat', 'PoissonSuffStat', 'BetaSuffStat', 'InvGammaSuffStat',
+          'InvGaussianSuffStat', 'UnitPowerLawSuffStat', 'MvGaussianSuffStat', 'RBFKernel', 'ConstantKernel', 'WhiteKernel',
+          'RationalQuadratic', 'ExpSineSquaredKernel', 'MaternKernel', 'SEardKernel', 'AddKernel', 'ProductKernel', 'NoiseModel',
+          'GaussianProcess']
+    import re as _re
+
+    def snake(v):
+        return _re.sub(r'(?<!^)(?=[A-Z])', '_', v).lower()
+    allowed = set()
+    for tname, f in facts.items():
+        allowed |= set(f.get('serialized', []))
+    for ename, e in man.get('enums', {}).items():
+        if e.get('serde_derive'):
+            allowed |= {snake(v) for v in e['variants']}
+    allowed.add('chol')      # nalgebra's Cholesky { chol } inside GaussianProcess::k_chol (a foreign type's field name)
+    n2 = 6 if tier == 'quick' else 200
+    l2, m2 = [], []
+    for t in T2:
+        for i in range(n2):
+            l2.append(f'serde2.{t} - {rng.randrange(1 << 30) * 16 + i}')
+            m2.append(t)
+    i2, _ = run_pair(l2, want_model=False)
+    for line, t, a in zip(l2, m2, i2):
+        fname = 'Mixture' if t == 'MixtureGaussian' else t
+        if a == 'NOOP':
+            continue
+        if a in ('PANIC', 'HANG', 'DIED'):
+            failures.append({'site': fname, 'case': line, 'impl': a, 'expected': 'round trip succeeds', 'observed': a.lower(), 'detail': ''})
+            continue
+        parts = [p.strip() for p in a.split('|')]
+        keys = [k for k in parts[0][2:].split(',') if k]
+        badk = [k for k in keys if k not in allowed]
+        if badk:
+            failures.append({'site': fname, 'case': line, 'impl': ','.join(keys), 'expected': 'documented snake_case names of fields / variants',
+                             'observed': 'keys', 'detail': 'unexpected serialised name(s): ' + ','.join(badk)})
+        der = [k for k in keys if k in set(facts.get(fname, {}).get('derived', {}))]
+        if der:
+            failures.append({'site': fname, 'case': line, 'impl': ','.join(keys), 'expected': 'parameters only', 'observed': 'derived_serialised',
+                             'detail': 'derived quantities in the serialised form: ' + ','.join(der)})
+        if parts[1] != 'T T':
+            failures.append({'site': fname, 'case': line, 'impl': parts[1], 'expected': 'deserialised == original (JSON, YAML)', 'observed': 'neq', 'detail': ''})
+        if parts[2] != 'T T' or parts[3] != 'T':
+            failures.append({'site': fname, 'case': line, 'impl': parts[2] + ' ' + parts[3], 'expected': 'bit-identical parameters after JSON and YAML round trips',
+                             'observed': 'query', 'detail': 'rendering of the deserialised object differs'})
+        if len(parts) > 4:
+            q = parts[4].split()
+            if len(q) == 2 and q[0] != q[1]:
+                failures.append({'site': fname, 'case': line, 'impl': parts[4], 'expected': 'bit-identical query after the round trip', 'observed': 'query', 'detail': ''})
     # coverage: every type deriving Serialize has a serde fact theorem
     import os, re
     from checklib import core
@@ -61,7 +112,7 @@ def extra_run(man, tier, seed):
         if f['serde_derive'] and not re.search(rf'theorem {tname}_serde(_counterexample)?\b', src):
             obligations.append({'name': f'coverage:{tname}_serde', 'kind': 'coverage', 'ok': False, 'site': tname,
                                 'detail': 'serialisable type without a serde fact theorem in Props/C18A.lean'})
-    return {'obligations': obligations, 'failures': failures, 'stats': {'evaluations': len(lines), 'distinct_nontrivial': len(set(lines)),
+    return {'obligations': obligations, 'failures': failures, 'stats': {'evaluations': len(lines) + len(l2), 'distinct_nontrivial': len(set(lines)) + len(set(l2)),
                                                                        'types': len(man.get('serde', {}))}, 'samples': lines[:2]}
 
 
